@@ -351,6 +351,11 @@ def load_known() -> T.Tuple[T.Dict[T.Tuple[str, str], dict], T.List[str]]:
     with open(path, encoding='utf-8') as f:
         d = json.load(f)
     known = {(e['property'], e['signature']): e for e in d.get('findings', [])}
+    extra = os.environ.get('VERIF_KNOWN_EXTRA')   # development aid only; never set by registered commands
+    if extra and os.path.exists(extra):
+        with open(extra, encoding='utf-8') as f:
+            for e in json.load(f).get('findings', []):
+                known[(e['property'], e['signature'])] = e
     return known, d.get('fixed', [])
 
 
